@@ -129,6 +129,11 @@ def world():
                     raise SystemExit("hooks called more than 1000 times: fill_context does not terminate")
                 return resolve_unwrap(T["table"][name]["unwrap"])
             return ucg
+        def hold_elab(frame, next_inner):
+            # a frame hook of the helper generator's frame (below the manager's own frame) that fails on demand
+            if T.get("hold_fault"):
+                raise LookupError("elaborate_frame hook of the manager's helper frame fails")
+        stackscope.elaborate_frame.register(ns["_hold%d" % i], hold_elab)
         stackscope.unwrap_context_generator.register(fn, mk("g%d" % i))
         stackscope.unwrap_context_generator.register(ns["gcmy%d" % i], mk("y%d" % i))
     T["plain"] = Plain()
@@ -443,6 +448,20 @@ def check_case(case):
                 problems += compare(reference(case, exiting, limit=1000), got, log, "bare/exactly-100-steps/exiting=%r" % exiting)
             continue
         problems += compare(ref, got, log, "bare/exiting=%r" % exiting)
+        if any(nm.startswith("y") for nm in case["names"]) and not case.get("long"):
+            # the same while a frame hook fails on a frame BELOW the generator-based manager's own frame: that is an
+            # error of the manager's inner stack, not of the context loop, which runs to its steady state all the same
+            world()["T"]["hold_fault"] = True
+            try:
+                got3, log3 = run_bare(case, exiting)
+            except LookupError as ex:
+                got3 = None
+                problems.append("bare/helper-frame-hook-fails/exiting=%r: fill_context raised the frame hook's %r (an error of "
+                                "the manager's inner stack; no context hook failed)" % (exiting, ex))
+            finally:
+                world()["T"]["hold_fault"] = False
+            if got3 is not None:
+                problems += compare(ref, got3, log3, "bare/helper-frame-hook-fails/exiting=%r" % exiting)
         if case["names"][0][0] in "wf" and not case.get("long"):
             got2, log2 = run_in_extract(case, exiting)
             if got2 is None:
